@@ -81,6 +81,11 @@ def run(ctx):
                           dict(kind=201, line=l, case=sg.describe(cases[i]), reader=a, ref=ro[i]))
     mlc = [sg.gen_case(rng, multi_line=True) for _ in range(ctx.count(300))]
     mll = [sg.case_val(c) for c in mlc]
+    # context, separators, numbering and offsets of a multi-line search obey the same model (reference ml_ref)
+    for c, l, a, b in zip(mlc, mll, vlib.code(301, mll), vlib.model(1301, mll)):
+        if c["lt_mode"] == 0 and a != b:
+            ctx.violation("multi-line search: context / passthru / numbering differ from the reference",
+                          dict(kind=1301, line=l, case=sg.describe(c), code=a, ref=b))
     for c, l, a, b in zip(mlc, mll, vlib.code(204, mll), vlib.code(205, mll)):
         if a != b:
             ctx.violation("a reused Searcher (multi-line, reader input) reports different lines / coordinates than a fresh one",
